@@ -12,6 +12,7 @@ package server
 import (
 	"encoding/json"
 	"errors"
+	"reflect"
 	"strconv"
 	"testing"
 
@@ -53,10 +54,37 @@ type c05sLoop struct {
 	exited chan error
 }
 
+// c05sNewEntry calls newUDPSessionEntry whatever its parameter list is (by type: the session id, the IO, the exit
+// function; a pointer parameter - e.g. a reassembler handed in by the caller - gets a fresh zero value, anything
+// else, like the dial function this harness never uses, its zero value), so that the harness keeps building, and
+// keeps judging behaviour, when the constructor's signature changes.
+func c05sNewEntry(sid uint32, io udpIO, exit func(error)) *udpSessionEntry {
+	f := reflect.ValueOf(newUDPSessionEntry)
+	ft := f.Type()
+	ioT := reflect.TypeOf((*udpIO)(nil)).Elem()
+	args := make([]reflect.Value, ft.NumIn())
+	for i := range args {
+		pt := ft.In(i)
+		switch {
+		case pt.Kind() == reflect.Uint32:
+			args[i] = reflect.ValueOf(sid).Convert(pt)
+		case pt == ioT:
+			args[i] = reflect.ValueOf(&io).Elem()
+		case pt == reflect.TypeOf(exit):
+			args[i] = reflect.ValueOf(exit)
+		case pt.Kind() == reflect.Ptr:
+			args[i] = reflect.New(pt.Elem())
+		default:
+			args[i] = reflect.Zero(pt)
+		}
+	}
+	return f.Call(args)[0].Interface().(*udpSessionEntry)
+}
+
 func c05sStart(sid uint32, io *c05sIO) *c05sLoop {
 	l := &c05sLoop{remote: &c05sRemote{idle: make(chan struct{}), in: make(chan c05sDgram)}, exited: make(chan error, 1)}
 	var exitErr error
-	e := newUDPSessionEntry(sid, io, nil, func(err error) { exitErr = err })
+	e := c05sNewEntry(sid, io, func(err error) { exitErr = err })
 	e.conn = l.remote
 	go func() {
 		defer func() {
@@ -83,6 +111,16 @@ func TestVerifC05SendServer(t *testing.T) {
 		var c c05sCase
 		if err := json.Unmarshal(raw, &c); err != nil {
 			t.Fatal(err)
+		}
+		if c.K == "sess" {
+			// reassembly through the real udpSessionManager (c05_sess_server_test.go)
+			var mc c05mCase
+			if err := json.Unmarshal(raw, &mc); err != nil {
+				t.Fatal(err)
+			}
+			res["k"] = "sess"
+			out.Emit(c05mGuarded(t, res, func(res map[string]any) { c05mServerBubble(&mc, res) }))
+			continue
 		}
 		io := &c05sIO{far: &frag.Defragger{}, block: make(chan struct{})}
 		var loop *c05sLoop
